@@ -390,7 +390,7 @@ theorem combine_rejected_unchanged (m : Mach) (s1 s2 : Nat) (e : PyErr)
         · rfl
         · rename_i hnames
           simp only [hnames, if_false] at h
-          cases hr : combineRows m x1.dict x2.dict (x1.params.unp.map (·.2)) (x2.params.unp.map (·.2))
+          cases hr : combineRows m x1.dict x2.dict (x1.params.norm.unp.map (·.2)) (x2.params.norm.unp.map (·.2))
               (product (p.unp.map (·.2))) (x1.dict.map (·.1)) with
           | error e' => simp
           | ok rows =>
@@ -538,26 +538,51 @@ theorem close_values_stay_distinct :
       ∧ union1d [2, 3] [2, 5/2] = [2, 5/2, 3] := by
   decide +kernel
 
+/-- **The axis order of the grid is `sorted(names)`** — one order, used for the enumeration of the
+    combinations (`product`), for the row-major index (`packIndex`) and for the union: `Params.norm`
+    is a permutation of the parameter lists, sorted by name in the lexicographic order of the
+    Unicode code points (Python's order on `str`), whatever the insertion order was. -/
+theorem param_order_is_sorted (p : Params) :
+    p.norm.unp.Perm p.unp ∧ p.norm.unp.Pairwise (fun a b => a.1 ≤ b.1)
+      ∧ p.norm.fixed.Perm p.fixed ∧ p.norm.fixed.Pairwise (fun a b => a.1 ≤ b.1) :=
+  ⟨perm_sortByName _, sorted_sortByName _, perm_sortByName _, sorted_sortByName _⟩
+
+/-- the code-point order on the names that distinguish it from "natural" or case-insensitive
+    orders: `user10 < user2`, `ant16 < ant4`, `x10 < x9`, `B < a`, `SNR < snr < snr2`,
+    digits before `_` before letters -/
+theorem param_order_witness :
+    (sortByName [("user2", [(1 : Rat)]), ("user10", [2]), ("user1", [3])]).map (·.1) = ["user1", "user10", "user2"]
+      ∧ (sortByName [("ant4", (0 : Nat)), ("ant16", 0)]).map (·.1) = ["ant16", "ant4"]
+      ∧ (sortByName [("x9", (0 : Nat)), ("x10", 0)]).map (·.1) = ["x10", "x9"]
+      ∧ (sortByName [("a", (0 : Nat)), ("B", 0)]).map (·.1) = ["B", "a"]
+      ∧ (sortByName [("snr2", (0 : Nat)), ("snr", 0), ("SNR", 0)]).map (·.1) = ["SNR", "snr", "snr2"]
+      ∧ (sortByName [("p", (0 : Nat)), ("_p", 0), ("1p", 0)]).map (·.1) = ["1p", "_p", "p"] := by
+  decide +kernel
+
 /-- `combine_simulation_parameters`: raises `RuntimeError` unless parameter names, unpacked names
     and fixed values agree; otherwise fixed parameters are kept and every unpacked parameter gets
     the union of the two value lists. -/
 theorem combine_params_spec (p1 p2 : Params) :
-    (p1.fixed = p2.fixed ∧ p1.unp.map (·.1) = p2.unp.map (·.1) →
-        combineParams p1 p2 = .ok ⟨p1.fixed, List.zipWith (fun a b => (a.1, union1d a.2 b.2)) p1.unp p2.unp⟩)
-      ∧ (¬ (p1.fixed = p2.fixed ∧ p1.unp.map (·.1) = p2.unp.map (·.1)) →
+    (p1.norm.fixed = p2.norm.fixed ∧ p1.norm.unp.map (·.1) = p2.norm.unp.map (·.1) →
+        combineParams p1 p2 = .ok ⟨p1.norm.fixed,
+          List.zipWith (fun a b => (a.1, union1d a.2 b.2)) p1.norm.unp p2.norm.unp⟩)
+      ∧ (¬ (p1.norm.fixed = p2.norm.fixed ∧ p1.norm.unp.map (·.1) = p2.norm.unp.map (·.1)) →
         combineParams p1 p2 = .error .RuntimeError) := by
+  unfold combineParams
+  generalize p1.norm = q1
+  generalize p2.norm = q2
   constructor
   · rintro ⟨h1, h2⟩
-    simp [combineParams, h1, h2]
+    simp [combineParamsSorted, h1, h2]
   · intro h
-    unfold combineParams
-    by_cases hn : p1.fixed.map (·.1) ≠ p2.fixed.map (·.1) ∨ p1.unp.map (·.1) ≠ p2.unp.map (·.1)
+    unfold combineParamsSorted
+    by_cases hn : q1.fixed.map (·.1) ≠ q2.fixed.map (·.1) ∨ q1.unp.map (·.1) ≠ q2.unp.map (·.1)
     · simp [hn]
-    · have hn' : p1.fixed.map (·.1) = p2.fixed.map (·.1) ∧ p1.unp.map (·.1) = p2.unp.map (·.1) := by
+    · have hn' : q1.fixed.map (·.1) = q2.fixed.map (·.1) ∧ q1.unp.map (·.1) = q2.unp.map (·.1) := by
         constructor
         · exact Classical.byContradiction (fun x => hn (Or.inl x))
         · exact Classical.byContradiction (fun x => hn (Or.inr x))
-      have hf : p1.fixed ≠ p2.fixed := fun e => h ⟨e, hn'.2⟩
+      have hf : q1.fixed ≠ q2.fixed := fun e => h ⟨e, hn'.2⟩
       simp [hn'.1, hn'.2, hf]
 
 /-- `get_pack_indexes` of a full combination: the index it returns is the position of the
@@ -587,7 +612,7 @@ theorem combine_results_spec (m m' : Mach) (s1 s2 : Nat) (x1 x2 : Sim)
           ∧ ∀ (k : Nat) (c : List Rat), (product (p.unp.map (·.2)))[k]? = some c →
               ∃ r : Res, row.2[k]? = some r
                 ∧ cellOf m (fresh row.1 r0.ty false r0.counts.length) (listAt m l1) (listAt m l2)
-                    (x1.params.unp.map (·.2)) (x2.params.unp.map (·.2)) c = .ok r := by
+                    (x1.params.norm.unp.map (·.2)) (x2.params.norm.unp.map (·.2)) c = .ok r := by
   obtain ⟨p, rows, hp, hrows, hlen, hpar, hview⟩ := combine_view m m' s1 s2 x1 x2 h1 h2 h
   obtain ⟨hn, hrow⟩ := combineRows_spec m _ _ _ _ _ _ rows hrows
   refine ⟨p, hp, hlen, hpar, by rw [hview]; exact hn, ?_⟩
